@@ -375,7 +375,7 @@ func init() {
 		Rule: "E1 over generate / use / replay / clear / regenerate histories with foreign, stale, stored-hash and empty candidates; acceptance must come from the oracle's own unconsumed set and the accepted value's hash must be gone from the (copy-semantics) database after the response; classes = accepted/refused kinds hit",
 		Units: func(tier string) []engine.Unit {
 			scs := c12Scenarios(tier)
-			return e1Units(append(scs, configVariants(scs, tier, "faults", "err500", "nil-state", "nomount", "json")...))
+			return e1Units(append(scs, configVariants(scs, tier, "faults", "err500", "nil-state", "nomount", "json", "localizer")...))
 		},
 		Assumptions: []string{"storage has database semantics (copies, not shared pointers)", "bounded depth, 2 accounts, 2 browsers"},
 	})
